@@ -25,6 +25,7 @@ theorem declsOf_length : ∀ (op : Host) (na : Nat), (declsOf na op).length = aC
   | .loopUntil _ body _ _ cl, na => by
     cases he : emits body <;> simp [declsOf, aCount, he, declsOf_length body, declsOf_length cl]
   | .tryUntil _ body, na => by simp [declsOf, aCount, declsOf_length body]
+  | .epr _, _ => rfl
 
 theorem declsOf_addr : ∀ (op : Host) (na : Nat), (declsOf na op).map (·.addr) = List.range' na (aCount op)
   | .skip, _ => rfl
@@ -43,6 +44,7 @@ theorem declsOf_addr : ∀ (op : Host) (na : Nat), (declsOf na op).map (·.addr)
     cases he : emits body <;>
       simp [declsOf, aCount, he, declsOf_addr body, declsOf_addr cl, List.range'_append_1]
   | .tryUntil _ body, na => by simp [declsOf, aCount, declsOf_addr body]
+  | .epr _, _ => rfl
 
 theorem declsOf_ok : ∀ (op : Host) (na : Nat), ∀ d ∈ declsOf na op, DeclOK d
   | .skip, _, d, h => by simp [declsOf] at h
@@ -72,6 +74,7 @@ theorem declsOf_ok : ∀ (op : Host) (na : Nat), ∀ d ∈ declsOf na op, DeclOK
       · exact declsOf_ok cl _ d h
       · cases h
   | .tryUntil _ body, na, d, h => declsOf_ok body na d (by simpa [declsOf] using h)
+  | .epr _, _, d, h => by simp [declsOf] at h
 
 theorem segDecls_addr : ∀ (ops : List Host) (na : Nat),
     (segDecls na ops).map (·.addr) = List.range' na (segDecls na ops).length
@@ -263,6 +266,14 @@ theorem emit_lens : ∀ (op : Host) (m m' : Mem) (cs : List PCmd), emit m op = .
     intro m m' cs h
     simp only [emit] at h
     simpa [declsOf] using ih _ _ _ h
+  | epr evs =>
+    intro m m' cs h
+    simp only [emit] at h
+    split at h
+    · cases h
+    · rename_i m1 held' h1
+      cases h
+      simp [(emitEprH_same _ _ _ _ _ h1).lens, declsOf]
 
 /-! ## a whole flush segment -/
 
